@@ -100,7 +100,17 @@ def handle_solve(case):
             raise Fail('adjoint-solve', '%s: <c, M^-1 b> = %r but <M^-T c, b> = %r' % (desc, lhs, rhs))
     except Fail as f:
         return {'res': '__none__', 'ok': False, 'msg': f.msg, 'sig': 'C02:' + f.sig, 'kind': 'solve:' + name}
-    return {'res': '__none__', 'ok': True, 'msg': '', 'sig': '', 'kind': 'solve:' + name}
+    res, aux = '__none__', None
+    if name == 'direct' and pow2:
+        # the matrix DirectSolver factorises (identity columns through _apply_linear in the scaled state):
+        # compared exactly with the model's  Dr^-1 M Du  (all scale factors are powers of two here)
+        Ms = np.array(probs['fwd'][1].linear_solver._build_mtx())
+        res = [qv(row) for row in Ms]
+        aux = {'drdo': [[k[0][2:], k[1][2:]] for k in twin[1]._get_jacobian()._dr_do_subjacs]}
+    out = {'res': res, 'ok': True, 'msg': '', 'sig': '', 'kind': 'solve:' + name + (':pow2' if pow2 else '')}
+    if aux is not None:
+        out['aux'] = aux
+    return out
 
 
 def handle(case):
